@@ -880,7 +880,7 @@ func c16Digest(src []byte) string {
 		d3, _, _, _ := dumpOf(p)
 		fmt.Fprintf(&b, "dump-after-failed-dump-same=%v%s|", bytes.Equal(d, d3), pan2)
 	}
-	r := Interpret(src)
+	r := InterpretReused(src)
 	fmt.Fprintf(&b, "interp=%s|%s|%v|%s|%s|%s|", canonBlocks(r.Blocks), canonBinding(r.Binding), r.Err, r.Out, r.Log, r.Panic)
 	rs := Interpret(src, bcl.OptStats(true), bcl.OptDisasm(true))
 	fmt.Fprintf(&b, "interp+stats+disasm=%v|%x|%s|", rs.Err, core.Hash(rs.Out), rs.Panic)
